@@ -62,16 +62,50 @@ def fleet_subjects(tier, c14=False):
     return out
 
 
+def conveyor_store_subjects(tier, eager=False):
+    """conveyors as stores (capacity, conservation, order, wake-ups): small, state-capped"""
+    q = tier == "quick"
+    kw = {"eager_get": 1} if eager else {}
+    out = [S("sconv", 2, live=2, drain=1, age_cap=3, grid=1, acc=1, delay=1, **kw),
+           S("cconv", 2, live=2, drain=1, age_cap=3, grid=1, acc=1, **kw),
+           S("cconv", 2, live=2, drain=1, age_cap=3, grid=1, acc=0, **kw)]
+    if not q:
+        out += [S("sconv", 3, live=2, drain=1, age_cap=4, grid=1, acc=0, delay=1, prios=[0, 1], **kw),
+                S("cconv", 3, live=2, drain=1, age_cap=4, grid=0.5, acc=1, **kw)]
+    return out
+
+
+def conveyor_subjects(tier):
+    q = tier == "quick"
+    out = []
+    for kind in ("cconv", "sconv"):
+        for acc in (1, 0):
+            kw = {"delay": 1} if kind == "sconv" else {}
+            out.append(S(kind, 2, live=1, drain=1, eager_get=1, age_cap=4, grid=0.5, acc=acc, **kw))
+            out.append(S(kind, 2, live=2, drain=1, eager_get=1, age_cap=4, grid=1, acc=acc, **kw))
+            out.append(S(kind, 3, live=1, drain=1, eager_get=1, age_cap=5, grid=1, acc=acc, **kw))
+            if not q:
+                out.append(S(kind, 3, live=2, drain=1, eager_get=1, age_cap=6, grid=0.5, acc=acc, **kw))
+                out.append(S(kind, 2, live=2, drain=1, age_cap=4, grid=1, acc=acc, **kw))
+    if not q:
+        out.append(S("cconv", 3, live=1, drain=1, eager_get=1, age_cap=4, grid=0.35, acc=1, ilen=0.7, speed=0.3 * 0 + 1, clen=2.1))
+        out.append(S("cconv", 2, live=1, drain=1, eager_get=1, age_cap=5, grid=0.5, acc=1, ilen=1, clen=2.5))
+    return out
+
+
 ENGINE_S_PROPS = {"C01", "C02", "C04", "C05", "C06"}
 
 
 def jobs_for(prop, tier):
     jobs = []
     q = tier == "quick"
-    caps = {"max_states": 60000 if q else 1500000, "max_seconds": 100 if q else 1500}
+    caps = {"max_states": 60000 if q else 1500000, "max_seconds": 900 if q else 3000}
     if prop in ENGINE_S_PROPS:
         for sp in store_subjects(tier) + fleet_subjects(tier):
             jobs.append({"engine": "S", "prop": prop, "label": sp.label() + "#" + _h(sp), "spec": sp.to_json(), "caps": caps})
+        ccaps = {"max_states": 9000 if q else 300000, "max_seconds": 900 if q else 3000}
+        for sp in conveyor_store_subjects(tier, eager=(prop == "C04")):
+            jobs.append({"engine": "S", "prop": prop, "label": sp.label() + "#" + _h(sp), "spec": sp.to_json(), "caps": ccaps})
     elif prop in F_FAMILIES:
         jobs = f_jobs(prop, tier)
     elif prop == "C19":
@@ -87,7 +121,9 @@ def jobs_for(prop, tier):
                     S("buffer", 1, live=2, mode="LIFO", delays=[0], drain=1, age_cap=0.5),
                     S("buffer", 1, live=1, mode="FIFO", delays=[1], age_cap=2),
                     S("fleet", 1, live=1, delay=2, transit=1, drain=1, age_cap=3, grid=1),
-                    S("fleet", 2, live=1, delay=2, transit=1, drain=1, age_cap=3, grid=1)]
+                    S("fleet", 2, live=1, delay=2, transit=1, drain=1, age_cap=3, grid=1),
+                    S("sconv", 2, live=1, drain=1, age_cap=2, grid=1, acc=1, delay=1, notime=1),
+                    S("cconv", 2, live=1, drain=1, age_cap=2, grid=1, acc=1, notime=1)]
         else:
             subs = store_subjects("quick") + fleet_subjects("quick")
         for sp in subs:
@@ -97,6 +133,10 @@ def jobs_for(prop, tier):
         for sp in store_subjects(tier) + fleet_subjects(tier):
             if sp.kind in ("buffer", "fleet"):
                 jobs.append({"engine": "S", "prop": prop, "label": sp.label() + "#" + _h(sp), "spec": sp.to_json(), "caps": caps})
+    elif prop in ("C12", "C13"):
+        ccaps = {"max_states": 16000 if q else 400000, "max_seconds": 400 if q else 3000}   # state cap: deterministic coverage
+        for sp in conveyor_subjects(tier):
+            jobs.append({"engine": "S", "prop": prop, "label": sp.label() + "#" + _h(sp), "spec": sp.to_json(), "caps": ccaps})
     elif prop == "C14":
         for sp in fleet_subjects(tier, c14=True):
             jobs.append({"engine": "S", "prop": prop, "label": sp.label() + "#" + _h(sp), "spec": sp.to_json(), "caps": caps})
@@ -138,6 +178,9 @@ def run_job(job, seed):
         sp = Spec.from_json(job["spec"])
         prop = job["prop"]
         mons = list(M.MONITORS.get(prop, []))
+        if prop == "C04" and sp.kind in ("cconv", "sconv"):
+            from . import conveyor_ref
+            mons.append(conveyor_ref.C04Conv)
         probe = PROBES.get(prop)
         r = engine_s.explore(sp, prop, mons, probe=probe, seed=seed, **job["caps"])
         d = r.to_json()
